@@ -2,7 +2,10 @@
 
 package sctp
 
-import "errors"
+import (
+	"errors"
+	"time"
+)
 
 // C04 — handshake reaches agreement under packet faults and fails cleanly otherwise.
 
@@ -158,6 +161,13 @@ func vh_C04_L2_stale_chunks_ignored() {
 	case 3:
 		c = &chunkCookieAck{}
 	}
+	if _, isAck := c.(*chunkInitAck); isAck {
+		// an INIT ACK means something in COOKIE-WAIT only: a second, different one that arrives
+		// while the COOKIE ECHO is outstanding, or in any later state, is discarded as well
+		a.setState([]uint32{established, cookieEchoed, shutdownPending, shutdownSent, shutdownReceived, shutdownAckSent}[vPick(6)])
+		a.storedCookieEcho = &chunkCookieEcho{cookie: []byte{9, 9, 9, 9}}
+	}
+	echoed := a.storedCookieEcho
 	st := a.getState()
 	il, ifw, fw, sz, rz := a.useInterleaving, a.useIForwardTSN, a.useForwardTSN, a.sendZeroChecksum, a.recvZeroChecksum
 	tag, cum, next, rwnd := a.peerVerificationTag, a.peerLastTSN(), a.myNextTSN, a.rwnd
@@ -170,6 +180,7 @@ func vh_C04_L2_stale_chunks_ignored() {
 	vassert(a.sendZeroChecksum == sz && a.recvZeroChecksum == rz, "checksum negotiation unchanged")
 	vassert(a.peerVerificationTag == tag && a.peerLastTSN() == cum && a.myNextTSN == next && a.rwnd == rwnd, "tags, TSN points and rwnd unchanged")
 	vassert(!a.willSendAbort, "no ABORT is provoked")
+	vassert(a.storedCookieEcho == echoed && (echoed == nil || len(echoed.cookie) == 4 && echoed.cookie[0] == 9), "the cookie being echoed is not replaced")
 	vcover("end")
 }
 
@@ -489,4 +500,33 @@ func vSetSupportedExtensionsSplit(init *chunkInitCommon, il bool, split int) {
 	} else {
 		init.params = append(init.params, base, ild)
 	}
+}
+
+// C04.L7: the result of the handshake waits for the connect call. The handler that completes
+// the handshake (COOKIE ACK, COOKIE ECHO, or a T1 timer that ran out of retries) offers the
+// result on an unbuffered channel; the goroutine of the connect call may not have reached its
+// wait yet (it was started first but is scheduled later). The offer stays up until it is taken:
+// the result, success or failure, is never dropped, and the connect call returns.
+func vh_C04_L7_handshake_result_waits_for_the_connect_call() {
+	a := vHandshakeEndpoint(vPick(2) == 1, false)
+	var result error
+	if vPick(2) == 1 {
+		result = ErrHandshakeInitAck // a failed handshake is reported the same way
+	}
+	a.handshakeCompletedCh = make(chan error) // unbuffered, as the constructor makes it
+	done := make(chan error, 1)
+	vGoLive = true
+	vGo(func() {
+		vSleep(50 * time.Millisecond) // the connect call reaches its wait only now
+		done <- <-a.handshakeCompletedCh
+	})
+	a.lock.Lock() // the handlers run under the association lock
+	vMustNotBlock("the handshake result is taken by the waiting connect call")
+	sent := a.completeHandshake(result)
+	vMayBlock()
+	a.lock.Unlock()
+	vassert(sent, "the result is handed to the connect call, not dropped")
+	got := <-done
+	vassert(got == result, "the connect call returns what the handshake ended with")
+	vcover("end")
 }
